@@ -397,6 +397,9 @@ void check_options (void)
 	if (ctrl.C_plus_plus && ctrl.bison_bridge_lval)
 		flexerror (_("bison bridge not supported for the C++ scanner."));
 
+	if (ctrl.C_plus_plus && !is_default_backend())
+		flexerror (_("Can't use -+ with the --emit option"));
+
 
 	if (ctrl.useecs) {		/* Set up doubly-linked equivalence classes. */
 
